@@ -1015,7 +1015,9 @@ func (g *Gen) regMsg(w *World, kind string) MsgSpec {
 			switch y := g.R.Intn(100); {
 			case y < 70:
 			case y < 78:
-				h = reg.LastKey + uint64(2+g.R.Intn(1000))
+				// gaps: mostly of one or two heights (a window that misses exactly one height is its
+				// own case), sometimes wide
+				h = reg.LastKey + pick(g.R, []uint64{2, 2, 2, 3, 3, 4, 7, uint64(2 + g.R.Intn(1000))})
 			case y < 84:
 				h = reg.LastKey
 			case y < 90:
